@@ -186,14 +186,17 @@ def run(ctx):
         if it.prog is not None:
             q, _ = pg.query_model(it.goal, it.prog.symtab())
             dd = {"P": ("program", pg.to_model(it.prog)), "q": ("query", q)}
-            ee = [(["P", "q"], logic.bb("f14_class P q"))]
+            ee = [(["P", "q"], "((if f14_class P q then 1 else 0) + (if f1_class P q then 2 else 0))%N")]
             if not pg.has_exists(it.goal):
                 dd["g"] = ("goal", pg.goal_model(it.goal, it.prog.symtab()))
                 ee.append((["P", "g"], logic.bb("f7q_class 150 P g")))
             cc, fl = logic.coq_codes(ctx.work, "cls%d" % k, dd, ee)
-            if not fl and cc[0] == 1:
-                classes.append("F14")
             k1 = logic.answer_kind(it.answers["slg"][1])
+            k2 = logic.answer_kind(it.answers["rec"][1])
+            if not fl and (cc[0] & 1) and k1 == "Unique":
+                classes.append("F14")
+            if not fl and (cc[0] & 2) and k1 == "AmbigDefinite" and k2 == "Unique":
+                classes.append("F1")
             if not fl and len(cc) > 1 and cc[1] == 1 and k1 == "NoSolution":
                 classes.append("F7q")
         f = classify(ctx, it, "incompatible", classes)
